@@ -1,7 +1,7 @@
 (* Main.v — single entry point of the extracted model: one request tree in, one
    response tree out.  The OCaml driver only parses and prints trees. *)
 From Coq Require Import String List.
-From Prov Require Import Str Sexp Tables Nsm Scope Values Record World Jtree Json JsonSpec Provn ProvnSpec XmlSpec IO Dot Xml XmlLabel Rdf Rdfq Interp.
+From Prov Require Import Str Sexp Tables Nsm Scope Values Record World Jtree Json JsonSpec Provn ProvnSpec XmlSpec IO Dot Xml XmlLabel XmlRec Rdf Rdfq Interp.
 Import ListNotations.
 Open Scope string_scope.
 
@@ -67,6 +67,23 @@ Definition run (req : sexp) : sexp :=
       | None => A "bad-request"
       end
   | L [A "xmlreadlabel"; A lab] => sx_read_label (read_label lab)
+  | L [A "xmlrecord"; A ft; A kind; ident; L pairs] =>
+      let px_pair (x : sexp) : option (qname * value) :=
+        match x with
+        | L [a; v] => match px_qn a, px_valarg v with
+                      | Some aq, Some va => option_map (fun vv => (aq, vv)) (valarg_value va)
+                      | _, _ => None
+                      end
+        | _ => None
+        end in
+      match px_optqn ident, px_list px_pair pairs with
+      | Some i, Some l =>
+          match xml_record (String.eqb ft "true") [] kind i l with
+          | Some x => sx_xnode x
+          | None => L [A "none"]
+          end
+      | _, _ => A "bad-request"
+      end
   | L [A "rdfpred"; A k; A attr] => L [A (enc_pred k attr); A (dec_pred k (enc_pred k attr))]
   | L (A "rdfq" :: rels) =>
       match px_list px_rrec rels with
